@@ -34,4 +34,4 @@ def run(ctx):
         "unchanged; later operations keep being compared with the model (whose state did not change)",
         ["the reference model does not predict NOSPC: full-disk failures (WRITE needing an index block, MKDIR, SYMLINK with 0/1/2 free blocks) are exercised by harness reclaim with the implementation-side oracles only; other failures exercised: stale/malformed handles, "
          "name too long, existing/missing names, wrong kinds, non-empty directories, size/offset limits, oversized transfers, count/data mismatch"],
-        pending=["abort_restores on the transaction/cache model (M8)"])
+        pending=[])
